@@ -6,7 +6,7 @@ From SV Require Import C18.Spec C18.Tactics C18.Conv C18.MapBase.
 Open Scope Z_scope.
 
 Section MapOps1.
-  Variable K V : Type.
+  Context {K V : Type}.
   Variable cmp : K -> K -> Z.
   Hypothesis O : cmp_order cmp.
   Variable phys_eq : forall A : Type, A -> A -> bool.
